@@ -86,7 +86,57 @@ def canon(v):
     return v
 
 
+def run_far(ctx, case):
+    """The first program of a generated case (64-bit format), decoded once at offset 0 of an ordinary .debug_line and once at an offset
+    beyond 2**31 / 2**32 of a sparse one, designated by an 8-byte DW_FORM_sec_offset: both must decode to the same header and rows and
+    the extent must move with the program."""
+    import io
+    from vf import dump
+    from vf.enc.sparse import SparseStream
+    from elftools.dwarf.dwarfinfo import DWARFInfo, DebugSectionDescriptor, DwarfConfig
+    base = case['inner']
+    le, far = base['le'], case['far']
+    p = dict(base['progs'][0], fmt=64)
+    lstr_sec, lstr_offs = D.pool(base.get('lstrs', []), b'')
+    str_sec, str_offs = D.pool(base.get('strs', []), b'\0')
+    prog = LP.enc_program(le, p, lstr_offs, str_offs, D.pool(base.get('sup_strs', []), b'\0\0\0')[1])
+    A, ver = p['addr_size'], max(p['version'], 3)
+    ab = bytes([1, 0x11, 0, 0x03, 0x08, 0x10, 0x17 if ver >= 4 else 0x07, 0, 0, 0])
+
+    def info(off):
+        body = b'\x01cu\0' + D.u(le, 8, off)
+        rest = D.u(le, 2, ver) + (bytes([1, A]) + D.u(le, 8, 0) if ver >= 5 else D.u(le, 8, 0) + bytes([A])) + body
+        return D.initial_length(le, 64, len(rest)) + rest
+
+    def mk(line_stream, line_size, off):
+        kw = {arg: None for arg in D.SECTION_ARGS.values()}
+        for name, arg, data in (('.debug_info', 'debug_info_sec', info(off)), ('.debug_abbrev', 'debug_abbrev_sec', ab), ('.debug_str', 'debug_str_sec', str_sec),
+                                ('.debug_line_str', 'debug_line_str_sec', lstr_sec)):
+            kw[arg] = DebugSectionDescriptor(stream=io.BytesIO(data), name=name, global_offset=0, size=len(data), address=0)
+        kw['debug_line_sec'] = DebugSectionDescriptor(stream=line_stream, name='.debug_line', global_offset=0, size=line_size, address=0)
+        return DWARFInfo(config=DwarfConfig(little_endian=le, machine_arch='x64', default_address_size=A), **kw)
+    tag = 'far|offset=%#x' % far
+    try:
+        near = mk(io.BytesIO(prog), len(prog), 0)
+        lp0 = near.line_program_for_CU(next(near.iter_CUs()))
+        d0 = dump.line_program(lp0)
+        fard = mk(SparseStream(far + len(prog), {far: prog}), far + len(prog), far)
+        lp1 = fard.line_program_for_CU(next(fard.iter_CUs()))
+        d1 = dump.line_program(lp1)
+        if d0 != d1:
+            ctx.fail(tag + '|decoded-differently', 'the program decodes to %d entries at offset 0 and to %d at offset %#x (or header / rows differ)' % (len(d0[1]), len(d1[1]), far), case)
+        if (lp1.program_start_offset - lp0.program_start_offset, lp1.program_end_offset - lp0.program_end_offset) != (far, far) or lp1.program_end_offset != far + len(prog):
+            ctx.fail(tag + '|extent', 'extent [%#x,%#x) at offset 0, [%#x,%#x) at offset %#x' % (
+                lp0.program_start_offset, lp0.program_end_offset, lp1.program_start_offset, lp1.program_end_offset, far), case)
+    except Exception as e:  # noqa
+        ctx.fail_exc(tag, e, case)
+    ctx.count('far.programs')
+    ctx.case(('far', far, prog), True, {'far': far, 'version': p['version'], 'n_ops': len(p['ops'])})
+
+
 def run_case(ctx, case):
+    if case.get('far'):
+        return run_far(ctx, case)
     secs, offs = build_sections(case)
     try:
         di = D.make_dwarfinfo(secs, case['le'], case['progs'][0]['addr_size'])
@@ -411,6 +461,14 @@ def sweep(tier):
                         if k % 2:
                             case['cu_vers'] = [5 if ver < 5 else 4]
                         cases.append(case)
+    # the 64-bit format programs of the sweep again, at .debug_line offsets that need more than 31 / 32 bits
+    fars = (0x7ffffff0, 0x80000000, 0xfffffff0, 1 << 32, (1 << 44) + 3)
+    k = 0
+    for c in list(cases):
+        if c['progs'][0]['fmt'] == 64 and not c.get('sup_strs'):
+            k += 1
+            if k % (8 if tier == 'quick' else 2) == 0:
+                cases.append({'far': fars[(k // 8) % len(fars)], 'inner': c})
     return cases
 
 
@@ -420,7 +478,7 @@ def floors(ctx):
     for k in list(REF.STD) + ['sp', 'unk_std', 'unk_ext', 'define_file', 'set_discriminator', 'set_address', 'end_sequence']:
         if c['op.' + k] == 0:
             out.append('opcode never generated: ' + k)
-    for k in ('hdr.opcode_base<13', 'hdr.opcode_base>13', 'hdr.max_ops>1', 'unit.version-differs-from-table', 'sup.attached'):
+    for k in ('hdr.opcode_base<13', 'hdr.opcode_base>13', 'hdr.max_ops>1', 'unit.version-differs-from-table', 'sup.attached', 'far.programs'):
         if c[k] == 0:
             out.append('no program with ' + k)
     for ver in (2, 3, 4, 5):
